@@ -1,6 +1,7 @@
 package main
 
 import (
+	"encoding/json"
 	"fmt"
 	"io"
 	"runtime"
@@ -422,4 +423,153 @@ func (r *planReader) Read(p []byte) (int, error) {
 		return n, io.EOF
 	}
 	return n, nil
+}
+
+// ---------------------------------------------------------------- kind "sched"
+
+// Obs is one distinct observation of a document under some schedules.
+type Obs struct {
+	Ev      []Event `json:"ev"`
+	Verdict string  `json:"verdict"` // ok | error | panic
+	N       int     `json:"n"`       // number of schedules with this observation
+	Entry   string  `json:"entry"`   // first schedule that produced it
+	Mask    int     `json:"mask"`
+}
+
+func init() { extraKinds["sched"] = runSched }
+
+// runSched parses c.Doc once as a whole buffer (the baseline, recorded as
+// call 1) and then under every schedule described by c.Sub:
+//
+//	entries: list of write | write0 | reader | readerE
+//	mode "all": every subset of the cut positions 1..len-1 (bit i-1 of the mask = cut before byte i)
+//	mode "list": the masks in c.Sub["masks"] (for longer documents: cut positions as lists in "cutlists")
+//
+// Identical observations are grouped; every distinct one is recorded in full.
+func runSched(c *Case, tr *Trace) {
+	api := formats[c.Fmt]
+	doc := intsToBytes(c.Doc)
+	n := len(doc)
+	if c.Fmt == "json" {
+		tr.NumTab = numTabFor(doc)
+	}
+	var obs []*Obs
+	index := map[string]*Obs{}
+	record := func(ev []Event, verdict, entry string, mask int) {
+		// the delivery mode (by value / by reference) legitimately depends on the chunking
+		norm := make([]Event, len(ev))
+		for i, e := range ev {
+			if e.Ty == "strref" {
+				e.Ty = "str"
+			} else if e.Ty == "keyref" {
+				e.Ty = "key"
+			}
+			norm[i] = e
+		}
+		kb, _ := json.Marshal(struct {
+			E []Event
+			V string
+		}{norm, verdict})
+		k := string(kb)
+		if o, ok := index[k]; ok {
+			o.N++
+			return
+		}
+		o := &Obs{Ev: norm, Verdict: verdict, N: 1, Entry: entry, Mask: mask}
+		index[k] = o
+		obs = append(obs, o)
+	}
+	runOne := func(entry string, cuts []int, mask int) {
+		rec := &RefRecorder{}
+		verdict := "ok"
+		func() {
+			defer func() {
+				if r := recover(); r != nil {
+					verdict = "panic"
+				}
+			}()
+			var err error
+			switch entry {
+			case "parse":
+				err = api.parse(append([]byte(nil), doc...), rec)
+			case "write", "write0":
+				p := api.newParser(rec)
+				for _, ch := range chunksOf(doc, cuts) {
+					buf := append([]byte(nil), ch...)
+					if _, err = p.Write(buf); err != nil {
+						break
+					}
+					for i := range buf {
+						buf[i] = 0xAA
+					}
+					if entry == "write0" {
+						if _, err = p.Write(nil); err != nil {
+							break
+						}
+					}
+				}
+				if err == nil {
+					if f, has := p.(interface{ VerifFinalize() error }); has {
+						err = f.VerifFinalize()
+					}
+				}
+			case "reader", "readerE":
+				_, err = api.parseReader(&chunkReader{chunks: chunksOf(append([]byte(nil), doc...), cuts), eofWith: entry == "readerE"}, rec)
+			default:
+				panic("harness: unknown sched entry " + entry)
+			}
+			if err != nil {
+				verdict = "error"
+			}
+		}()
+		ev := rec.Events
+		if ev == nil {
+			ev = []Event{}
+		}
+		record(ev, verdict, entry, mask)
+	}
+	runOne("parse", nil, 0)
+	var entries []string
+	for _, e := range c.Sub["entries"].([]interface{}) {
+		entries = append(entries, e.(string))
+	}
+	total := 1
+	maskCuts := func(mask int) []int {
+		var cuts []int
+		for i := 1; i < n; i++ {
+			if mask&(1<<(i-1)) != 0 {
+				cuts = append(cuts, i)
+			}
+		}
+		return cuts
+	}
+	switch c.Sub["mode"].(string) {
+	case "all":
+		if n > 16 {
+			panic("harness: sched mode all on a long document")
+		}
+		for mask := 1; mask < 1<<(n-1); mask++ {
+			cuts := maskCuts(mask)
+			for _, e := range entries {
+				runOne(e, cuts, mask)
+				total++
+			}
+		}
+	case "list":
+		for _, cl := range c.Sub["cutlists"].([]interface{}) {
+			var cuts []int
+			for _, x := range cl.([]interface{}) {
+				cuts = append(cuts, int(x.(float64)))
+			}
+			for _, e := range entries {
+				runOne(e, cuts, -1)
+				total++
+			}
+		}
+	}
+	out := make([]Obs, len(obs))
+	for i, o := range obs {
+		out[i] = *o
+	}
+	tr.Extra = map[string]interface{}{"obs": out, "schedules": total}
 }
